@@ -1082,6 +1082,7 @@ package ion
 
 //@ func (*binaryWriter).writeLST
 //@ modifies *
+//@ atcall[C11] SymbolTable.WriteTo :: SymbolTable, Writer :: a0 == lst && vcAsBinaryWriter(a1) == w
 
 // Text of the form $n is a symbol ID reference; everything else goes to the symbol table.
 //@ func (*binaryWriter).resolve
@@ -1714,3 +1715,17 @@ package ion
 //@    vcCalls("Writer.WriteString")-specDeclaredImports(t) < len(t.symbols) && sym == t.symbols[vcCalls("Writer.WriteString")-specDeclaredImports(t)]
 //@ ensures[C11] err == nil && !(len(t.imports) == 1 && len(t.symbols) == 0) ==> vcCalls("Writer.WriteString") == specDeclaredImports(t)+len(t.symbols) && vcCalls("Writer.WriteUint") == specDeclaredImports(t)
 //@ safe[C06,C11]
+
+// The constructors hand the shared tables to the builder, or keep the fixed table to be
+// written before the first value (C11).
+//@ func NewSymbolTableBuilder
+//@ trusted thin: called by contract (processImports is not under contract)
+//@ modifies nothing
+//@ ensures result != nil
+
+//@ func NewBinaryWriter
+//@ atcall[C11] NewSymbolTableBuilder len(a0) == len(sts) && vcSameArray(a0, sts)
+//@ ensures[C11] result != nil && vcAsBinaryWriter(result) != nil && vcAsBinaryWriter(result).lst == nil && vcAsBinaryWriter(result).lstb != nil && vcAsBinaryWriter(result).err == nil
+
+//@ func NewBinaryWriterLST
+//@ ensures[C11] result != nil && vcAsBinaryWriter(result) != nil && vcAsBinaryWriter(result).lst == lst && !vcAsBinaryWriter(result).wroteLST && vcAsBinaryWriter(result).err == nil
